@@ -74,4 +74,108 @@ theorem runSched_local (pol : NamespacePolicy) (t : Tid)
       rfl
     · rw [stepThread_other pol x t m (fun e => hx e.symm), List.count_cons_of_ne hx]
 
+/-! ## the executable schedule runners of the driver (`E`, `G`, `H` queries) are schedules -/
+
+theorem runSched_append (pol : NamespacePolicy) (s1 s2 : Sched) (m : MState) :
+    runSched pol m (s1 ++ s2) = runSched pol (runSched pol m s1) s2 := by
+  induction s1 generalizing m with
+  | nil => rfl
+  | cons x s ih => exact ih (stepThread pol x m)
+
+/-- a run of one thread to its end is a schedule -/
+theorem runToEnd_sched (pol : NamespacePolicy) (t : Tid) (fuel : Nat) (m : MState) :
+    ∃ k, runToEnd pol t fuel m = runSched pol m (List.replicate k t) := by
+  induction fuel generalizing m with
+  | zero => exact ⟨0, rfl⟩
+  | succ f ih =>
+    unfold runToEnd
+    by_cases h : (m.threads t).out.isSome = true
+    · exact ⟨0, by simp [h, runSched]⟩
+    · obtain ⟨k, hk⟩ := ih (stepThread pol t m)
+      exact ⟨k + 1, by simp [h, hk, List.replicate_succ, runSched]⟩
+
+theorem runToGate_sched (pol : NamespacePolicy) (t : Tid) (fuel : Nat) (m : MState) :
+    ∃ k, runToGate pol t fuel m = runSched pol m (List.replicate k t) := by
+  induction fuel generalizing m with
+  | zero => exact ⟨0, rfl⟩
+  | succ f ih =>
+    obtain ⟨k, hk⟩ := ih (stepThread pol t m)
+    have hstep : runSched pol m (List.replicate (k + 1) t) = runSched pol (stepThread pol t m) (List.replicate k t) := by
+      simp [List.replicate_succ, runSched]
+    unfold runToGate
+    by_cases h : (m.threads t).out.isSome = true
+    · exact ⟨0, by simp [h, runSched]⟩
+    · simp only [h]
+      cases hc : (m.threads t).ctl with
+      | hostCall g v =>
+        by_cases hg : g = "gate"
+        · exact ⟨0, by simp [hg, runSched]⟩
+        · exact ⟨k + 1, by simp [hg, hk, hstep]⟩
+      | idle => exact ⟨k + 1, by simp [hk, hstep]⟩
+      | eval e => exact ⟨k + 1, by simp [hk, hstep]⟩
+      | ret r => exact ⟨k + 1, by simp [hk, hstep]⟩
+      | enter n c => exact ⟨k + 1, by simp [hk, hstep]⟩
+
+theorem runUntilVisible_sched (pol : NamespacePolicy) (t : Tid) (fuel k : Nat) (m : MState) :
+    ∃ j, runUntilVisible pol t fuel k m = runSched pol m (List.replicate j t) := by
+  induction fuel generalizing m k with
+  | zero => exact ⟨0, rfl⟩
+  | succ f ih =>
+    have hstep : ∀ j, runSched pol m (List.replicate (j + 1) t) = runSched pol (stepThread pol t m) (List.replicate j t) := by
+      intro j; simp [List.replicate_succ, runSched]
+    unfold runUntilVisible
+    by_cases h : (m.threads t).out.isSome = true
+    · exact ⟨0, by simp [h, runSched]⟩
+    · simp only [h]
+      by_cases hv : (m.threads t).visible = true
+      · cases k with
+        | zero => exact ⟨0, by simp [hv, runSched]⟩
+        | succ k' =>
+          obtain ⟨j, hj⟩ := ih k' (stepThread pol t m)
+          exact ⟨j + 1, by simp [hv, hj, hstep]⟩
+      · obtain ⟨j, hj⟩ := ih k (stepThread pol t m)
+        exact ⟨j + 1, by simp [hv, hj, hstep]⟩
+
+/-- folding single-thread runs over a list of threads is a schedule -/
+theorem foldl_sched (pol : NamespacePolicy) (f : MState → Tid → MState)
+    (hf : ∀ m t, ∃ k, f m t = runSched pol m (List.replicate k t)) (l : List Tid) (m : MState) :
+    ∃ s : Sched, l.foldl f m = runSched pol m s ∧ ∀ t, t ∉ l → s.count t = 0 := by
+  induction l generalizing m with
+  | nil => exact ⟨[], rfl, fun _ _ => rfl⟩
+  | cons x l ih =>
+    obtain ⟨k, hk⟩ := hf m x
+    obtain ⟨s, hs, hc⟩ := ih (f m x)
+    refine ⟨List.replicate k x ++ s, ?_, ?_⟩
+    · rw [List.foldl_cons, hs, hk, runSched_append]
+    · intro t ht
+      simp only [List.mem_cons, not_or] at ht
+      rw [List.count_append, hc t ht.2, List.count_replicate]
+      simp [Ne.symm ht.1]
+
+theorem runHold_is_schedule (pol : NamespacePolicy) (fuel n : Nat) (m : MState) (release : List Tid) :
+    ∃ s : Sched, runHold pol fuel n m release = runSched pol m s := by
+  unfold runHold
+  obtain ⟨s1, h1, _⟩ := foldl_sched pol (fun m t => runToGate pol t fuel m) (fun m t => runToGate_sched pol t fuel m) (List.range n) m
+  obtain ⟨s2, h2, _⟩ := foldl_sched pol (fun m t => runToEnd pol t fuel m) (fun m t => runToEnd_sched pol t fuel m)
+    (release ++ List.range n) (runSched pol m s1)
+  exact ⟨s1 ++ s2, by rw [h1, h2, runSched_append]⟩
+
+theorem runSegs_sched (pol : NamespacePolicy) (fuel : Nat) (segs : List (Tid × Nat)) (m : MState) :
+    ∃ s : Sched, runSegs pol fuel m segs = runSched pol m s := by
+  induction segs generalizing m with
+  | nil => exact ⟨[], rfl⟩
+  | cons x rest ih =>
+    obtain ⟨t, k⟩ := x
+    obtain ⟨j, hj⟩ := runUntilVisible_sched pol t fuel k m
+    obtain ⟨s, hs⟩ := ih (runUntilVisible pol t fuel k m)
+    exact ⟨List.replicate j t ++ s, by rw [runSegs, hs, hj, runSched_append]⟩
+
+theorem runSegments_is_schedule (pol : NamespacePolicy) (fuel n : Nat) (m : MState) (segs : List (Tid × Nat)) :
+    ∃ s : Sched, runSegments pol fuel n m segs = runSched pol m s := by
+  unfold runSegments
+  obtain ⟨s1, h1⟩ := runSegs_sched pol fuel segs m
+  obtain ⟨s2, h2, _⟩ := foldl_sched pol (fun m t => runToEnd pol t fuel m) (fun m t => runToEnd_sched pol t fuel m)
+    (finishOrder n segs) (runSched pol m s1)
+  exact ⟨s1 ++ s2, by rw [h1, h2, runSched_append]⟩
+
 end Cel.Runtime
